@@ -105,7 +105,24 @@ UNITS["C05"] = [
                       "SQL WHERE fragment translated by vx/sqlpred.py; SQLite integer comparison treated as mathematics"]),
 ]
 
+UNITS["C03"] = [
+    dict(kind="verus", name="c03_changeset", template="specs/c03_changeset.vrs",
+         under_contract=["Changeset::is_complete", "Changeset::is_empty", "Changeset::seqs", "Changeset::versions", "Changeset::last_seq"],
+         vacuity=["Changeset::is_complete"],
+         assumptions=["Change payloads are opaque; Timestamp/ActorId are opaque newtypes"]),
+]
+
+UNITS["C10"] = [
+    dict(kind="verus", name="c10_ingest", template="specs/c10_ingest.vrs",
+         under_contract=["frag_suppress"],
+         vacuity=["frag_suppress"],
+         assumptions=["fragments of the tokio::select! ingest loop wrapped as functions; let-chains desugared; `continue` -> return Exit::Continue",
+                      "IndexMap / VecDeque / Iterator::all replaced by contract stand-ins that keep the real closures"]),
+]
+
 NOTES = {
+    "C10": "seen-cache kernel of handle_changes: suppression test, drop-oldest eviction, cache insertion; cleared-decision of process_multiple_changes",
+    "C03": "decision kernels of 'applied iff covered': Changeset::is_complete, PartialVersion::is_complete (shared with C02), insert_partial union (C02), completeness triggers",
     "C05": "safety guards of the sync server: pre-filter, empties decisions, partial-range clipping and its SQL overlap clause; send_change_chunks in unit c05_send",
     "C16": "the cluster-id decision sites as fragments: uni dispatch, serve_sync prologue, sync-candidate filter, broadcast-target filter",
     "C17": "token decision fragment (Verus), route/middleware ordering and read-only-guard dominance (structural obligations on the real text)",
